@@ -483,3 +483,184 @@ Definition cresult (r : cstate) : option (option Z) :=
   end.
 
 Definition new_crender (c : Z) (code : list bytes) : cstate := mkC c 0%Z (CRun code).
+
+(* ------------------------------------------------------------------ Part 2d: struct data, members that are not there *)
+
+(* "Each with its own data": the data of a call is a Go value of the application, in practice a
+   STRUCT, and templates read members that the value may not have.  Go (pugjs/types.go):
+
+     convert:       case reflect.Struct: newMap := &Map{o: val.Interface()}      // nothing derived yet
+     Map.convert:   m.items[lowerFirst(val.Type().Field(i).Name)] = convert(val.Field(i)) ...
+                    // on the FIRST member access, by reflection on the value, into the value's own Map
+     Map.Member:    items[f] | items[upperFirst(f)] | items[strings.Title(f)] |
+                    f' := strings.NewReplacer("id","ID","url","URL","api","API").Replace(f);
+                    items[f'] | items[upperFirst(f')] | items[strings.Title(f')] | Nil{}
+
+   Everything is derived from the call's own value by pure helpers, on the spot: nothing is
+   remembered per Go type, no helper keeps state between calls.  So it makes no difference
+   whether a type, a template or a helper is used for the first time in the process, and how
+   many renders are doing so at once.  [mstep MAsIs] is that code.  Two variants, here only to
+   show that the theorem about [MAsIs] is not vacuous (Proofs/SchedProofs.v, *_refuted):
+   [MTypeCache] remembers the member names per type in the shared state and publishes the entry
+   BEFORE it is filled (right for ever once a type has been converted alone: only renders that
+   meet a type for the first time TOGETHER see it); [MSharedCaser] title-cases through one
+   shared stateful helper (its buffer is the shared state).
+
+   The shared state holds the read-only type table of package reflect (type -> field names).
+   Members are numbers; a member that is not there is [None] (Nil{}). *)
+
+Definition ascii_range (lo hi : N) (c : ascii) : bool :=
+  let n := N_of_ascii c in (N.leb lo n && N.leb n hi)%bool.
+
+Definition up_ascii (c : ascii) : ascii :=
+  if ascii_range 97 122 c then ascii_of_N (N_of_ascii c - 32) else c.
+Definition low_ascii (c : ascii) : ascii :=
+  if ascii_range 65 90 c then ascii_of_N (N_of_ascii c + 32) else c.
+
+(* lowerFirst / upperFirst (pugjs/tpl_exec.go), on ASCII *)
+Definition lower_first (b : bytes) : bytes := match b with [] => [] | c :: r => low_ascii c :: r end.
+Definition upper_first (b : bytes) : bytes := match b with [] => [] | c :: r => up_ascii c :: r end.
+
+(* strings.Title on ASCII: the first letter of every word; letters, digits, '_' and bytes >= 128
+   do not separate words *)
+Definition is_sep (c : ascii) : bool :=
+  negb (ascii_range 97 122 c || ascii_range 65 90 c || ascii_range 48 57 c || ascii_range 95 95 c
+        || ascii_range 128 255 c)%bool.
+
+Fixpoint title_from (start : bool) (b : bytes) : bytes :=
+  match b with
+  | [] => []
+  | c :: r => (if start then up_ascii c else c) :: title_from (is_sep c) r
+  end.
+Definition title (b : bytes) : bytes := title_from true b.
+
+(* strings.NewReplacer("id", "ID", "url", "URL", "api", "API").Replace *)
+Fixpoint fold_ids (b : bytes) : bytes :=
+  match b with
+  | "i"%char :: "d"%char :: r => "I"%char :: "D"%char :: fold_ids r
+  | "u"%char :: "r"%char :: "l"%char :: r => "U"%char :: "R"%char :: "L"%char :: fold_ids r
+  | "a"%char :: "p"%char :: "i"%char :: r => "A"%char :: "P"%char :: "I"%char :: fold_ids r
+  | c :: r => c :: fold_ids r
+  | [] => []
+  end.
+
+Definition mitems := list (bytes * Z).
+
+Definition or_else {A} (a b : option A) : option A := match a with Some _ => a | None => b end.
+
+(* the lookups of Map.Member before the first strings.Title ... *)
+Definition member_fast (items : mitems) (f : bytes) : option Z :=
+  or_else (lookup f items) (lookup (upper_first f) items).
+
+(* ... and from it on; [t], [t'] are what the title-casing of f and of the folded f returned *)
+Definition member_slow (items : mitems) (f t t' : bytes) : option Z :=
+  or_else (lookup t items)
+    (let f' := fold_ids f in
+     or_else (lookup f' items) (or_else (lookup (upper_first f') items) (lookup t' items))).
+
+(* S: the member of a value, a function of the value alone *)
+Definition member (items : mitems) (f : bytes) : option Z :=
+  or_else (member_fast items f) (member_slow items f (title f) (title (fold_ids f))).
+
+Fixpoint nlookup {A} (k : nat) (m : list (nat * A)) : option A :=
+  match m with
+  | [] => None
+  | (k', v) :: r => if Nat.eqb k k' then Some v else nlookup k r
+  end.
+
+Fixpoint nappend (k : nat) (x : bytes) (m : list (nat * list bytes)) : list (nat * list bytes) :=
+  match m with
+  | [] => []
+  | (k', v) :: r => if Nat.eqb k k' then (k', v ++ [x]) :: r else (k', v) :: nappend k x r
+  end.
+
+Inductive mvariant := MAsIs | MTypeCache | MSharedCaser.
+
+Record mshared := mkMS {
+  ms_types : list (nat * list bytes);   (* reflect: struct type -> Go field names; never written *)
+  ms_cache : list (nat * list bytes);   (* MTypeCache only: type -> member names published so far *)
+  ms_word : bytes;                      (* MSharedCaser only: the buffer of the shared caser *)
+}.
+
+(* the call's data: a struct value (its type, its field values) or a map value (its entries) *)
+Inductive mdata :=
+| DStruct (t : nat) (vals : list Z)
+| DMapV (kv : mitems).
+
+Inductive mpc :=
+| MRun (items : option mitems) (code : list bytes) (out : list (option Z))
+                                   (* items = None: the value's Map is not converted yet;
+                                      code: the members the template still reads *)
+| MFill (todo : list bytes) (code : list bytes) (out : list (option Z))
+                                   (* MTypeCache: this render published the type's entry and is filling it *)
+| MCased (f : bytes) (items : mitems) (code : list bytes) (out : list (option Z))
+                                   (* MSharedCaser: f is in the shared caser, its result not read yet *)
+| MEnd (out : list (option Z)).
+
+Record mstate := mkM { m_data : mdata; m_pc : mpc }.
+
+(* Map.convert's derivation of the member names of a struct type *)
+Definition names_of (h : mshared) (t : nat) : list bytes :=
+  match nlookup t (ms_types h) with Some fs => map lower_first fs | None => [] end.
+
+(* S: the members of a value *)
+Definition items_of (types : list (nat * list bytes)) (d : mdata) : mitems :=
+  match d with
+  | DStruct t vals =>
+    combine (match nlookup t types with Some fs => map lower_first fs | None => [] end) vals
+  | DMapV kv => kv
+  end.
+
+Definition mstep (v : mvariant) (h : mshared) (r : mstate) : option (mshared * mstate) :=
+  let d := m_data r in
+  match m_pc r with
+  | MRun None code out =>
+    match d, v with
+    | DStruct t vals, MTypeCache =>
+      match nlookup t (ms_cache h) with
+      | Some names => Some (h, mkM d (MRun (Some (combine names vals)) code out))   (* whatever is there *)
+      | None => Some (mkMS (ms_types h) ((t, []) :: ms_cache h) (ms_word h),          (* published empty *)
+                      mkM d (MFill (names_of h t) code out))
+      end
+    | _, _ => Some (h, mkM d (MRun (Some (items_of (ms_types h) d)) code out))
+    end
+  | MFill (n :: todo) code out =>
+    match d, v with
+    | DStruct t _, MTypeCache =>
+      Some (mkMS (ms_types h) (nappend t n (ms_cache h)) (ms_word h), mkM d (MFill todo code out))
+    | _, _ => Some (h, mkM d (MFill todo code out))                                   (* unreachable *)
+    end
+  | MFill [] code out =>
+    match d with
+    | DStruct t vals =>
+      Some (h, mkM d (MRun (Some (combine (match nlookup t (ms_cache h) with Some ns => ns | None => [] end) vals))
+                           code out))
+    | DMapV kv => Some (h, mkM d (MRun (Some kv) code out))                           (* unreachable *)
+    end
+  | MRun (Some items) [] out => Some (h, mkM d (MEnd out))
+  | MRun (Some items) (f :: rest) out =>
+    match member_fast items f with
+    | Some x => Some (h, mkM d (MRun (Some items) rest (out ++ [Some x])))
+    | None =>
+      match v with
+      | MSharedCaser => Some (mkMS (ms_types h) (ms_cache h) f, mkM d (MCased f items rest out))
+      | _ => Some (h, mkM d (MRun (Some items) rest (out ++ [member_slow items f (title f) (title (fold_ids f))])))
+      end
+    end
+  | MCased f items rest out =>
+    (* both casings are of whatever the shared buffer holds now (one read: the model has ONE
+       point of interference per lookup where the real helper has two) *)
+    let w := ms_word h in
+    Some (h, mkM d (MRun (Some items) rest (out ++ [member_slow items f (title w) (title (fold_ids w))])))
+  | MEnd _ => None
+  end.
+
+(* S: what a render of (data, members read) returns, whoever else is rendering and whatever
+   has or has not been rendered before *)
+Definition mspec (types : list (nat * list bytes)) (d : mdata) (code : list bytes) : list (option Z) :=
+  map (member (items_of types d)) code.
+
+Definition mresult (r : mstate) : option (list (option Z)) :=
+  match m_pc r with MEnd out => Some out | _ => None end.
+
+Definition new_mrender (d : mdata) (code : list bytes) : mstate := mkM d (MRun None code []).
